@@ -125,6 +125,8 @@ pub enum Desc {
     Tuple(Vec<Desc>),
     Cs(Sc),
     Json,
+    /// `PhantomData<u8>`: accepts anything, looks at nothing
+    Phantom,
     Named(usize),
 }
 
@@ -350,6 +352,7 @@ impl Catalogue {
             ),
             Desc::Cs(s) => format!("CS<{}>", s.rust()),
             Desc::Json => "serde_json::Value".to_string(),
+            Desc::Phantom => "std::marker::PhantomData<u8>".to_string(),
             Desc::Named(i) => self.types[*i].name.clone(),
         }
     }
@@ -358,7 +361,7 @@ impl Catalogue {
     pub fn has_default_impl(&self, d: &Desc) -> bool {
         match d {
             Desc::Scalar(s) => s.has_default(),
-            Desc::Probe(_) | Desc::Option(_) | Desc::Vec(_) => true,
+            Desc::Probe(_) | Desc::Option(_) | Desc::Vec(_) | Desc::Phantom => true,
             Desc::HashSet(_) | Desc::BTreeSet(_) | Desc::HashMap(..) | Desc::BTreeMap(..) => true,
             _ => false,
         }
@@ -518,6 +521,7 @@ impl Catalogue {
             }
             Desc::Cs(_) => f.cs = true,
             Desc::Json => f.json = true,
+            Desc::Phantom => {}
             Desc::Named(i) => {
                 f.named = true;
                 if seen.contains(i) {
